@@ -32,8 +32,8 @@ template <class T> static std::string gq(const glm::qua<T>& q) { T a[4] = {q.w, 
 template <class T> static std::string gv(const glm::vec<3, T>& v) { T a[3] = {v.x, v.y, v.z}; return astr(a, 3); }
 
 #define REG2(fn, name, q, t, rule) \
-	static void fn##_f(pbt::Ctx& c) { static const CaseAlign al(name "/float", name "/float[" C04_CFG "]"); al.apply(c); fn<float>(c); } PBT_RANDOM(name "/float[" C04_CFG "]", fn##_f, q, t, rule); \
-	static void fn##_d(pbt::Ctx& c) { static const CaseAlign al(name "/double", name "/double[" C04_CFG "]"); al.apply(c); fn<double>(c); } PBT_RANDOM(name "/double[" C04_CFG "]", fn##_d, q, t, rule)
+	static void fn##_f(pbt::Ctx& c) { static const CaseAlign al(name "/float", name "/float/" C04_CFG); al.apply(c); fn<float>(c); } PBT_RANDOM(name "/float/" C04_CFG, fn##_f, q, t, rule); \
+	static void fn##_d(pbt::Ctx& c) { static const CaseAlign al(name "/double", name "/double/" C04_CFG); al.apply(c); fn<double>(c); } PBT_RANDOM(name "/double/" C04_CFG, fn##_d, q, t, rule)
 
 // rotation axis (unit) and |sin(half angle)| of a nearly-unit quaternion
 static inline V3 axis_of(Qn q, R* s) { V3 u = qvec(q); *s = vnorm(u); return *s > 0 ? vscale(u, 1 / *s) : V3{0, 0, 1}; }
@@ -121,7 +121,7 @@ template <class T> static void rotvec(pbt::Ctx& c) {
 			c.failk(key<T>("inverse*quat*vec3", "round-trip", QC_KEY[qc]), "inverse(q)*(q*v)=%s, v=%s, q=wxyz%s", gv(back).c_str(), astr(v, 3).c_str(), astr(q, 4).c_str());
 	}
 }
-REG2(rotvec, "rotate-vector", 400000, 30000000,
+REG2(rotvec, "rotate-vector", 400000, 10000000,
      "unit quaternions rounded to T (exact table, random, axis-angle with angle within 1e-9 of 0/pi/2pi and axis within 1e-9 of a coordinate axis, w~0, w~+-1, largest-component ties, gimbal neighbourhoods, products) x "
      "vec3 (mixed magnitude 2^-10..2^10, same scale, small ints, axis-aligned, unit, parallel to the rotation axis); q*v, mat3_cast(q)*v, mat4_cast(q)*(v,w), v*q, gtx rotate/cross/toMat, conversion operators "
      "against the long-double conversion polynomial P(q) v; non-trivial = |sin(half angle)| > 1e-3 and v not within 1e-3 of the rotation axis");
@@ -173,7 +173,7 @@ template <class T> static void quatcast(pbt::Ctx& c) {
 	if (!bits_q(glm::toQuat(M), g) || !bits_q(glm::toQuat(M4), g)) c.failk(key<T>("toQuat", "equals-quat_cast"), "toQuat differs from quat_cast for wxyz%s", astr(q, 4).c_str());
 	if (!bits_q(glm::qua<T>(M), g) || !bits_q(glm::qua<T>(M4), g)) c.failk(key<T>("qua(mat)", "equals-quat_cast"), "qua(mat3)/qua(mat4) differ from quat_cast for wxyz%s", astr(q, 4).c_str());
 }
-REG2(quatcast, "quat-cast", 400000, 30000000,
+REG2(quatcast, "quat-cast", 400000, 10000000,
      "unit quaternions as in rotate-vector, with every 'largest component' branch of quat_cast and ties of the two largest components down to +-2 ulps; quat_cast(mat3_cast(q)) and quat_cast of the "
      "T-rounded exact rotation matrix must be q or -q, quat_cast(mat4), toQuat and the matrix constructors must agree; non-trivial = at least three non-zero components with pairwise distinct magnitudes");
 
@@ -258,7 +258,7 @@ template <class T> static void product(pbt::Ctx& c) {
 			c.failk(key<T>("inverse*quat", "identity", QC_KEY[ca]), "inverse(q)*q=%s for q=wxyz%s", qstr(one2).c_str(), astr(a, 4).c_str());
 		if (unit) {  // conjugate equals inverse for unit q: they differ by the factor 1/|q|^2 = 1 - d
 			R e2 = 0; Qn rc = qn_of(cj);
-			for (int i = 0; i < 4; ++i) e2 = rmax(e2, rabs(qget(rc, i) - qget(ri, i)) / ((rabs(n2 - 1) * 1.01L + 8 * u) * rmax(rabs(qget(rc, i)), (R)1e-300L)));
+			for (int i = 0; i < 4; ++i) e2 = rmax(e2, rabs(qget(rc, i) - qget(ri, i)) / ((rabs(n2 - 1) * 1.01L + 24 * u) * rmax(rabs(qget(rc, i)), (R)1e-300L)));
 			c.metric("conjugate vs inverse (unit q) err/tol", (double)e2);
 			if (!(e2 <= 1)) c.failk(key<T>("conjugate", "equals-inverse-for-unit-q", QC_KEY[ca]), "conjugate(q)=%s, inverse(q)=%s for unit q=wxyz%s (|q|^2-1=%.3Lg)", gq(cj).c_str(), gq(iv).c_str(), astr(a, 4).c_str(), n2 - 1);
 		}
@@ -277,6 +277,15 @@ template <class T> static void product(pbt::Ctx& c) {
 		bool ok = true;
 		for (int i = 0; i < 4; ++i) ok = ok && within(c, "normalize(q) component err/tol", rabs(qget(rn, i) - qget(wn, i)), 40 * u * rabs(qget(wn, i)) + TINY<T>());
 		if (!ok) c.failk(key<T>("normalize(quat)", "q-over-length", QC_KEY[ca]), "normalize(wxyz%s)=%s, expected %s", astr(a, 4).c_str(), gq(gn).c_str(), qstr(wn).c_str());
+	}
+	if (unit) {  // gtx extractRealComponent: the magnitude of the real part a unit quaternion must have for the given xyz, sqrt(1 - |xyz|^2) (its sign is not documented);
+		// 1 - |xyz|^2 carries ~4u absolute error, the root is accurate to ~2u / sqrt(..) and to sqrt(4u) at 0
+		V3 uv = qvec(ra);
+		R ex = 1 - vdot(uv, uv), sw = ex > 0 ? sqrtl(ex) : 0;
+		T gr = glm::extractRealComponent(A);
+		c.cls(gr < 0 ? "extractRealComponent: negative root returned" : (gr == 0 ? "extractRealComponent: 0 returned" : "extractRealComponent: positive root returned"));
+		if (!within(c, "extractRealComponent magnitude err/tol", rabs(rabs((R)gr) - sw), 32 * u / rmax(sw, sqrtl(32 * u))))
+			c.failk(key<T>("extractRealComponent", "magnitude", QC_KEY[ca]), "extractRealComponent(wxyz%s)=%s, sqrt(1-|xyz|^2)=%.17Lg", astr(a, 4).c_str(), fstr(gr).c_str(), sw);
 	}
 	{  // component-wise operators: one correctly rounded operation per component (VALUE)
 		T s = c.coin() ? (T)std::ldexp(1.0, (int)c.range(-4, 4)) : fp::gen_moderate<T>(c, 6, 6);
@@ -307,7 +316,7 @@ template <class T> static void product(pbt::Ctx& c) {
 		if ((e == A) || !(e != A)) c.failk(key<T>("quat==quat", "one-component-differs"), "q == q' although component %d (wxyz order) differs by one ulp, q=wxyz%s", k, astr(a, 4).c_str());
 	}
 }
-REG2(product, "product", 400000, 30000000,
+REG2(product, "product", 400000, 10000000,
      "pairs of unit quaternions (all classes; one quarter scaled by 2^-8..2^8 for the purely algebraic relations) and a vec3; q1*q2, cross(q1,q2), *= against the long-double Hamilton product (32u x sum of |products|), "
      "mat3_cast/mat4_cast(q1*q2) against the product of the two matrices and against the composed reference rotations, (q1 q2) v = q1 (q2 v), q*inverse(q) = 1, conjugate = inverse for unit q, dot/length/length2/normalize, "
      "component-wise operators and ==/!= exactly; non-trivial = both rotations are not ~identity and their axes are not parallel (the product does not commute)");
@@ -332,6 +341,7 @@ template <class T> static void angleaxis(pbt::Ctx& c) {
 	const R cos_half = 0.877582561890372716116281582603829651991L;
 	const bool asin_branch = rabs(rq.w) > cos_half;
 	c.cls(asin_branch ? (rq.w < 0 ? "angle: asin branch, w<0 (2pi - a)" : "angle: asin branch, w>0") : "angle: acos branch");
+	if (rabs(rabs(rq.w) - cos_half) < 1e-3L) c.cls("angle: |w| within 1e-3 of the branch point cos(1/2)");
 	if (rabs(rabs(rq.w) - cos_half) < 16 * eps) c.cls("angle: |w| within 16 eps of the branch point cos(1/2)");
 	if (s > 1e-3L) c.nontrivial();
 	{
@@ -384,7 +394,7 @@ template <class T> static void angleaxis(pbt::Ctx& c) {
 			c.failk(key<T>("rotate(quat,angle,axis)", scaled ? "non-unit-axis" : "unit-axis", QC_KEY[qc]), "rotate(wxyz%s, %s, %s)=%s, q*angleAxis(angle, normalised axis)=%s (err %.3Lg)", astr(q, 4).c_str(), fstr(a).c_str(), astr(m, 3).c_str(), gq(g).c_str(), qstr(wr).c_str(), e);
 	}
 }
-REG2(angleaxis, "angle-axis", 400000, 30000000,
+REG2(angleaxis, "angle-axis", 400000, 10000000,
      "unit quaternions (all classes, both angle() branches incl. w<0, |xyz| from 1e-12 to 1, the degenerate axis branch) and separately a generated angle (0, k pi/2 +- ulps / +- 1e-9..1e-3, small, uniform [-2pi,2pi], table, "
      "[-1000,1000]) with a unit axis (coordinate axis exactly / within 1e-9..1e-2 / random) and a non-unit multiple of it; angle(q) against 2 atan2(|xyz|,w), axis(q) against xyz/|xyz| with the (u+|d|)/|xyz|^2 conditioning of 1-w^2, "
      "angleAxis(angle(q),axis(q)) = +-q, angleAxis(a,n) = (cos a/2, n sin a/2), rotate(q,a,n) = q*angleAxis(a, n/|n|); non-trivial = |sin(half angle)| > 1e-3");
@@ -455,7 +465,7 @@ template <class T> static void eulerquat(pbt::Ctx& c) {
 		}
 	}
 }
-REG2(eulerquat, "euler-quat", 400000, 30000000,
+REG2(eulerquat, "euler-quat", 400000, 10000000,
      "unit quaternions (all classes incl. qz(roll) qy(+-(pi/2 -+ 1e-9..1e-2)) qx(pitch) and the eight exact gimbal-lock quaternions (+-1/2)^4) and generated (pitch,yaw,roll) triples incl. yaw = k pi/2 +- ulps; "
      "qua(eulerAngles(q)) must rotate like q within 16 eps (1 + 1/cos yaw) (exact gimbal lock: 32 eps), pitch/yaw/roll are the components of eulerAngles, qua(vec3) = qz qy qx in long double, its matrix equals "
      "eulerAngleZ*eulerAngleY*eulerAngleX; non-trivial = the bound is below 1e-2");
@@ -542,7 +552,7 @@ template <class T> static void twovec(pbt::Ctx& c) {
 	}
 	(void)dotv;
 }
-REG2(twovec, "two-vectors", 400000, 30000000,
+REG2(twovec, "two-vectors", 400000, 10000000,
      "pairs of unit vec3 rounded to T: independent, at 1e-9..1e-1 rad from parallel and from antiparallel, exactly antiparallel, equal, orthogonal; qua(u,v) and gtx rotation(u,v) must be unit, map u onto v "
      "and use the shortest arc (axis orthogonal to u+v, w >= 0) within the conditioning of the documented formula (1/|u+v| resp. 1/(1+u.v)); in the half-turn / identity branches the result is within |u+v| resp. |u-v| of exact; "
      "either branch is accepted within rounding of a threshold; non-trivial = u and v at more than 1e-2 from parallel and antiparallel");
